@@ -69,6 +69,9 @@ fn trace(rng: &mut Rng, depth: usize, top: bool) -> TTrace {
     let nf = match rng.below(4) {
         0 => 0,
         1 => 1,
+        // now and then a section as deep as a StackOverflowError trace (beyond 255, 1024
+        // and 65 535 frames)
+        _ if rng.chance(1, 400) => *rng.pick(&[256usize, 1024, 1025, 2000, 5000, 66_000]),
         _ => rng.below(21),
     };
     let mut frames: Vec<TFrame> = (0..nf).map(|_| frame(rng)).collect();
@@ -108,6 +111,16 @@ pub fn run(ctx: &Ctx, rep: &mut Reporter) {
             let parsed = cur::typed_parse(printed.as_bytes());
             rep.count("evaluations", 1);
             rep.count("traces", 1);
+            {
+                let mut sec = Some(&t);
+                while let Some(x) = sec {
+                    if x.frames.len() > 1024 {
+                        rep.count("traces_with_a_section_of_more_than_1024_frames", 1);
+                        break;
+                    }
+                    sec = x.cause.as_deref();
+                }
+            }
             rep.count("frames_roundtripped", count_frames(&t));
             if shares_tail(&t) {
                 rep.count("traces_where_a_cause_shares_ge2_trailing_frames_with_its_parent", 1);
